@@ -78,6 +78,18 @@ class Loc:
         return "Loc(%r)" % (self.key,)
 
 
+class ArrLoc(Loc):
+    """element `index` of an array-valued location (z3 Array term stored under key)"""
+    __slots__ = ("index",)
+
+    def __init__(self, key, index):
+        Loc.__init__(self, key)
+        self.index = index
+
+    def __repr__(self):
+        return "ArrLoc(%r,%s)" % (self.key, self.index)
+
+
 class Obj:
     """An object whose mutable fields live in the store under (oid, field)."""
     _ids = itertools.count(1)
@@ -303,14 +315,20 @@ class Ctx:
     def load(self, loc):
         if loc.key not in self.store:
             raise Gap("read of unmapped location %r" % (loc.key,))
+        if isinstance(loc, ArrLoc):
+            return self.store[loc.key][loc.index]
         return self.store[loc.key]
 
     def write(self, loc, v):
         if self.pure_depth:
             raise Impure()
         for lf in self.loop_frames:
-            lf.note_write(self, loc)
-        self.store[loc.key] = v
+            if lf is not None:
+                lf.note_write(self, loc)
+        if isinstance(loc, ArrLoc):
+            self.store[loc.key] = z3.Store(self.store[loc.key], loc.index, v)
+        else:
+            self.store[loc.key] = v
 
     def rv(self, x):
         return self.load(x) if isinstance(x, Loc) else x
@@ -424,7 +442,7 @@ class LoopFrame:
         if isinstance(k, tuple) and k and k[0] == "L":
             return
         if self.allowed is not None and k not in self.allowed:
-            ctx.oblige("loop%d.frame" % self.ordinal, False, kind="frame",
+            ctx.oblige("loop%s.frame" % self.ordinal, False, kind="frame",
                        note="write to %r outside the declared loop frame" % (k,))
 
 
@@ -634,12 +652,11 @@ class Interp:
     def _loop(self, n, init, cond, inc, body, var_scan_nodes):
         """generic invariant-cut loop"""
         ctx = self.ctx
-        ordinal = ctx.loop_ordinal
-        ctx.loop_ordinal += 1
+        ordinal = self.k.loop_ordinal_of(n, ctx)
         spec = self.k.loop_spec(ordinal, n)
         if spec is None:
-            raise Gap("loop #%d at line %s has no invariant" % (ordinal, extract.line_of(n)))
-        tag = "loop%d" % ordinal
+            raise Gap("loop #%s at line %s has no invariant" % (ordinal, extract.line_of(n)))
+        tag = "loop%s" % ordinal
         if init is not None:
             self.stmt(init)
         if spec.unroll is not None:
@@ -757,6 +774,8 @@ class Interp:
                 # field of a local struct: propagate the parent's read-ness
                 read = parent_read
             for c in kids(n):
+                if k == "LambdaExpr" and c.get("kind") == "DeclRefExpr":
+                    continue  # capture list entry; uses inside the body are scanned below
                 rec(c, read)
 
         for n in nodes:
